@@ -556,6 +556,23 @@ theorem last_block_history_fixed :
     r.2.getLast? = some [] ∧ r.1.blocksByNode.get 1 = some [2] ∧ r.1.blocksByNode.get 2 = some [1] := by
   decide +kernel
 
+/-! ### regression: a failed release followed by the node's re-creation -/
+
+/-- node 1 is deleted, its tunnel address becomes a confirmed leak in a FULL sync whose `ReleaseIPs` fails; the node
+is re-created before the dirty-only retry. -/
+def tunnelRetryHistory : List Op :=
+  [.inSync, .cnode 1 (some 1), .knode 1 true, .block 4 (.host 1) [⟨0, some 8, .tunnel, 1, 0, 1⟩], .sync true,
+   .knode 1 false, .cnodeDel 1, .failRel, .sync true, .cnode 1 (some 1), .knode 1 true, .sync false]
+
+/-- since /repo f65adf3 the node stays dirty after the failed sync, so the retry re-checks it, refreshes the cached
+node name and releases NOTHING; the live node keeps its tunnel address (before the repair the retry released it:
+corpus/C23/tunnel-stale-knode.ops). -/
+theorem tunnel_retry_history_fixed :
+    let r := runOps { grace := some 60 } tunnelRetryHistory
+    r.2.getLast? = some [] ∧ r.1.leaks = [] ∧
+    r.1.allocs.map (fun a => (a.block, a.ord, a.knode, a.confirmed)) = [(4, 0, some 1, false)] := by
+  decide +kernel
+
 /-! ### "all of a handle's addresses together or none" depends on the iteration order -/
 
 /-- two addresses of handle 4 (pod 4 on node 1); the informer cache has lost the pod, the API has it and it
